@@ -629,7 +629,7 @@ func (w *c27World) fillerRound(t *rapid.T, vk *vkCtx, hist *[]string) {
 	}
 	ub, err := ev.GenerateBlock(nil)
 	if err != nil {
-		t.Fatalf("HARNESS: GenerateBlock: %v", err)
+		t.Fatalf("C27 VIOLATION: GenerateBlock failed: the generate+validate evaluator refuses the participation lists it has just generated itself (round %d): %v", r, err)
 	}
 	blk := ub.UnfinishedBlock().WithProposer(w.seed(r), prp, false)
 	if n := len(blk.ExpiredParticipationAccounts) + len(blk.AbsentParticipationAccounts); n > 0 {
@@ -767,7 +767,7 @@ func c27TestRound(t *rapid.T, vk *vkCtx, w *c27World, hist *[]string) {
 	}
 	ub, err := ev.GenerateBlock(nil)
 	if err != nil {
-		t.Fatalf("HARNESS: GenerateBlock: %v", err)
+		t.Fatalf("C27 VIOLATION: GenerateBlock failed: the generate+validate evaluator refuses the participation lists it has just generated itself (round %d): %v", r, err)
 	}
 	gblk := ub.UnfinishedBlock().WithProposer(w.seed(r), prp, false)
 
